@@ -5,6 +5,7 @@ from . import gen_text as G
 from . import pipeline as PL
 
 BASE = "/verif/work/inc"
+NESTED_INC = re.compile(r"\{[^{}\n]*include ")     # an include inside braces: not spliced
 # `e_stdgates.inc` ends with, and `stdgates.inc.f` starts with, the name of the virtual standard library: both are
 # ordinary files; a real file called `stdgates.inc` in a search directory must never be read
 NAMES = ["a.inc", "b.inc", "c.inc", "d.inc", "e_stdgates.inc", "stdgates.inc.f"]
@@ -136,7 +137,13 @@ def gen_case(rnd, idx):
         elif r < 0.8:
             main.append('include "stdgates.inc";')
         elif r < 0.9:
-            main.append(f'if (true) {{ include "{n}"; }}')
+            # below global scope, in every scope kind (diagnosed, never followed, never a panic)
+            inc = f'include "{n}";'
+            main.append(rnd.choice([
+                f'if (true) {{ {inc} }}', f'if (true) {{ }} else {{ {inc} }}', f'while (false) {{ {inc} }}',
+                f'for int k9 in [0:1] {{ {inc} }}', f'switch (m0) {{ case 1 {{ {inc} }} }}',
+                f'switch (m0) {{ case 1 {{ }} default {{ {inc} }} }}', f'def f9() {{ {inc} }}',
+                f'if (true) {{ if (true) {{ {inc} }} }}', f'switch (m0) {{ default {{ int z9 = 1; {inc} }} }}']))
         else:
             main.append('include "nowhere.inc";')
         main.append(f"int m{len(main)} = {len(main)};")
@@ -261,7 +268,7 @@ def check(ctx):
     # metamorphic oracle: textual inclusion
     spliced, idxs = [], []
     for i, c in enumerate(cases):
-        if "if (true)" in c["main"]:
+        if NESTED_INC.search(c["main"]):
             continue
         s = splice(c, c["main"])
         if s is not None:
